@@ -1,15 +1,22 @@
 """C01 / C06 (returning from a function): Fiber::pop_frame (fiber/mod.rs), extracted as it is.  The frame vector is a model vector, the
 `frame` pointer an index into it (None = null); `stack_top` is set to the slot where the returning frame STARTED — the callee slot, where the
 caller expects the result (retops unit) —, the frame below becomes current and its function is answered; popping the last frame empties the
-fiber; popping with no frame is reported, not a crash."""
+fiber; popping with no frame is reported, not a crash.  Fiber::push_frame is its inverse: the new frame starts at the callee slot — arg_count + 1 slots below the top —
+after room for the callee's max_slots has been ensured, and becomes current."""
 UNIT = dict(
   name='popframe',
   properties=['C01', 'C06'],
-  items=[('laythe_vm/src/fiber/mod.rs', [('impl Fiber', ['pop_frame'])])],
+  items=[('laythe_vm/src/fiber/mod.rs', [('impl Fiber', ['pop_frame', 'push_frame'])])],
   rewrites=[
     ('R3d', 'Fiber::pop_frame', dict(pat=r'#\[cfg\(debug_assertions\)\]\s*self\.assert_frame_inbounds\(\);\s*', rep='', regex=True, optional=True)),
     ('R6', 'Fiber::pop_frame', dict(pat='ptr::null_mut()', rep='FramePtr::null()', count=1)),
     ('R7', 'Fiber::pop_frame', dict(pat=r'unsafe \{\s*(self\.frame = self\.frame\.offset\(-1\);)\s*\}', rep=r'\1', regex=True, count=1)),
+    # push_frame: the allocator context is dropped from the signature and from the vector push (the model vector needs none)
+    ('R6', 'Fiber::push_frame', dict(pat=r'pub fn push_frame<C: TraceRoot \+ GcContext>\(\s*&mut self,\s*context: &C,\s*fun: ObjRef<Fun>,\s*captures: Captures,\s*arg_count: usize,\s*\)', rep='pub fn push_frame(&mut self, fun: FunRef, captures: Captures, arg_count: usize)', regex=True, count=1)),
+    ('R6', 'Fiber::push_frame', dict(pat=r'unsafe \{', rep='{', regex=True, count=1)),
+    ('R6', 'Fiber::push_frame', dict(pat='self.ensure_stack(context, fun.max_slots());', rep='self.ensure_stack(fun.max_slots());', count=1)),
+    ('R6', 'Fiber::push_frame', dict(pat=r'self\.frames\.push\(\s*context\.gc\(\),\s*context,\s*(CallFrame::new\(fun, captures, stack_start\)),\s*\);', rep=r'self.frames.push(\1);', regex=True, count=1)),
+    ('R3d', 'Fiber::push_frame', dict(pat=r'#\[cfg\(debug_assertions\)\]\s*(?:assert_inbounds\(&self\.stack, stack_start\);|self\.assert_frame_inbounds\(\);)\s*', rep='', regex=True, optional=True)),
   ],
   assumption_ids=['A-fiber'],
 )
